@@ -12,6 +12,7 @@ Lemma fault_predicates_inhabited :
   /\ has_fault_undeclared_variable w_f_F04a = true /\ has_fault_undeclared_variable w_f_F04b = true
   /\ has_fault_undeclared_variable w_f_F04f = true
   /\ has_fault_unknown_attribute w_f_F05a = true
+  /\ has_fault_literal_missing_attribute w_f_F06a = true /\ has_fault_literal_unknown_attribute w_f_F07a = true
   /\ has_fault_duplicate_struct w_f_F10a = true /\ has_fault_duplicate_task w_f_F11a = true
   /\ has_fault_duplicate_attribute w_f_F12a = true /\ has_fault_duplicate_task_input w_f_F13a = true
   /\ has_fault_duplicate_call_output w_f_F13b = true
@@ -32,7 +33,9 @@ Lemma fault_predicates_false_on_good :
   /\ has_fault_duplicate_task w_good_small = false /\ has_fault_duplicate_attribute w_good_small = false
   /\ has_fault_duplicate_task_input w_good_small = false /\ has_fault_duplicate_call_output w_good_small = false
   /\ has_fault_no_start_task w_good_small = false /\ has_fault_undeclared_task_output w_good_small = false
-  /\ has_fault_wrong_arity w_good_small = false /\ has_fault_bad_parallel_loop w_good_small = false.
+  /\ has_fault_wrong_arity w_good_small = false /\ has_fault_bad_parallel_loop w_good_small = false
+  /\ has_fault_literal_missing_attribute w_good_small = false
+  /\ has_fault_literal_unknown_attribute w_good_small = false.
 Proof. vm_compute. repeat split; reflexivity. Qed.
 
 (* under the guard of C16 "not accepted" is "reported with at least one message" *)
